@@ -638,6 +638,8 @@ pub fn crash_suites(thorough: bool) -> Vec<Suite> {
     v.push(crash_suite("crash-small-v3", small_disk(3, 5), crash_tables(3), crash_core_ops(), d(4, 6)));
     v.push(crash_suite("crash-ttl-reuse-v3", disk(3, true, true), crash_tables(3), crash_ttl_reuse_ops(), d(7, 8)));
     v.push(crash_suite("crash-ttl-reuse-v2", disk(2, true, true), crash_tables(2), crash_ttl_reuse_ops(), d(6, 8)));
+    // one key rewritten over and over: new generations land in the hole below the old one
+    v.push(crash_suite("crash-reuse-v3", disk(3, true, false), std_tables(), vec![ins(0, V_X), ins(0, V_Y), Op::Delete { k: 0, ts: 0 }, Op::Flush], d(6, 8)));
     // multi-block generations that recovery itself has to retire (stale duplicate / expired winner)
     v.push(crash_suite("crash-ttl-big-v3", disk(3, true, true), std_tables(), crash_ttl_big_ops(), d(4, 6)));
     // extents that end exactly on the last block of the device, retired by recovery itself
